@@ -10,6 +10,7 @@ NOTE = ("Trusted base: Lean 4.33 kernel; axioms limited to propext/Classical.cho
         "stack and wall-clock are modelled or out of the model (DESIGN section 8).")
 
 CLAIMS = {
+ "C19": ("proof", "Machine-checked (Lean 4): collect_fields never runs out of the model's fuel on any document, cyclic fragment graphs included (collect_terminates: every expansion removes a fragment definition from the unvisited set); its result is the grouping by response key of exactly the fields gathered by the spec's CollectFields, formalised as the fuel-free inductive relation Collects (collect_sound, collects_functional, collect_eq_spec; hypothesis: the parent is an object type of a schema with unique type names), and the group under a key is the list of collected fields with that response key in encounter order (group_lookup). Tied to the code by comparing the groups for every selection set x every object type on a bounded-exhaustive family (aliases, type conditions of every relation to the parent, fragment cycles, unknown fragments) and random documents.", "6 C19", "Lean refinement to an inductive spec relation + fuel adequacy + exhaustive/random differential run"),
  "C09": ("proof", "Machine-checked (Lean 4): the report of 'known argument names' is exactly the per-owner check - every argument of every occurrence of a known field (under its parent type) or declared directive against that node's own declaration (ka_document: the slot always belongs to the node whose arguments are being visited, for any nesting and any stale value on entry); hence it reports iff an argument is undeclared on its known owner and every error names that owner (knownArgumentNames_iff, knownArgumentNames_owner); 'unique argument names' reports iff one field/directive has two arguments of one name; 'provided required arguments' iff a declared non-null argument without default is missing. Tied to the code by verdict + owner-message comparison on an exhaustive family of argument lists over all owner kinds and on random documents.", "6 C09", "Lean iff-theorems (slot invariant over the walk) + exhaustive small-alphabet and random differential run"),
  "C04": ("proof", "Machine-checked (Lean 4): run alone, 'fields on correct type' reports iff some non-meta field is selected on a schema-known type that does not define it (or __typename sits directly at a subscription root - the extra report the statement allows), 'leaf field selections' iff a leaf-typed field has a sub-selection or a non-leaf-typed one lacks it; positions and their types are those of the lexically scoped walk proved equal to the visitor's stack machine (C16); every error carries the rule's code (C13.codes). Tied to the code by comparing the two rules' verdicts on a bounded-exhaustive enumeration of small selection trees over a schema with object/interface/union/wrapped types and on random documents over curated and random schemas.", "6 C04", "Lean iff-theorems via the C16 refinement + bounded-exhaustive and random differential run"),
  "C10": ("proof", "Machine-checked (Lean 4): 'known directives' reports iff some directive is undeclared or used at a location its declaration does not list - the proof carries the slot invariant (recent_location = location of the node whose directives are being visited) through the whole traversal, for every nesting; 'unique directives per location' reports iff a declared non-repeatable directive occurs at least twice on one node (knownDirectives_iff, uniqueDirectives_iff; hypothesis: unique directive names, query root present). Tied to the code by verdict comparison on a ten-slot document family covering every location kind x declared location set x multiplicity, nested owners, and random documents.", "6 C10", "Lean iff-theorems (slot invariant over the event fold) + systematic and random differential run"),
